@@ -2,3 +2,5 @@ R BHS.Peers
 R BHS.ConnMgr
 X Peers.step Peers.init Peers.total Peers.check_trace Peers.empty_ost Peers.mkOst Peers.mkCfg Peers.mkPeer Peers.was_disc
 X ConnMgr.sinit ConnMgr.sstep ConnMgr.core ConnMgr.n_wait ConnMgr.dialing_addrs ConnMgr.cm_check ConnMgr.zlen
+R BHS.AddrSearch
+X AddrSearch.new_address
